@@ -31,7 +31,9 @@ def run(prop, tier, seed, replay=None):
         else:
             clear_replays(prop)
             nf = "[t \\in {%s} |-> CASE %s]" % (", ".join('"%s"' % t for t in sorted(cat)), " [] ".join('t = "%s" -> %d' % (t, len(cat[t])) for t in sorted(cat)))
-            open(os.path.join(SPEC, "RobustRun.tla"), "w").write("---- MODULE RobustRun ----\nEXTENDS Robust\nNFieldsDef == %s\n====\n" % nf)
+            hf = "[t \\in {%s} |-> CASE %s]" % (", ".join('"%s"' % t for t in sorted(cat)), " [] ".join('t = "%s" -> {%s}' % (
+                t, ", ".join(str(i + 1) for i, pth in enumerate(cat[t]) if pth.startswith("/datagram/header/"))) for t in sorted(cat)))
+            open(os.path.join(SPEC, "RobustRun.tla"), "w").write("---- MODULE RobustRun ----\nEXTENDS Robust\nNFieldsDef == %s\nHeaderFDef == %s\n====\n" % (nf, hf))
             cases, states = [], 0
             try:
                 modes = [("single", ["discovered", "bound"] if quick else ["connected", "discovered", "bound", "pending", "reconnected"], 0),
@@ -50,7 +52,7 @@ def run(prop, tier, seed, replay=None):
                     if mode == "followup" and quick:  # quick tier: the data-carrying messages first (thorough: the discovery ones too)
                         tmpls = tmpls - {"discReply", "discNotifyAdd", "discNotifyFull", "subRequest", "bindDelete", "discNotifyRemove"}
                     c = {"Templates": tmpls, "Phases": set(phases), "Mode": mode, "MaxSeq": 2, "Sample": sample, "JunkKinds": 12}
-                    code, out = run_tlc("RobustRun.tla", cfg_text("Spec", c, subst={"NFields": "NFieldsDef"}, invariants=["StillServing"], action_constraints=[],
+                    code, out = run_tlc("RobustRun.tla", cfg_text("Spec", c, subst={"NFields": "NFieldsDef", "HeaderF": "HeaderFDef"}, invariants=["StillServing"], action_constraints=[],
                                                                     constraints=["Emit"]), timeout=3000, workers=1, heap="8g", extra=["-seed", str(seed)])
                     st = tlc_stats(out)
                     if not tlc_ok(code, out) or not st:
